@@ -71,6 +71,22 @@ def touchP (w : World) (p : Str) : Except Err World :=
   | .error e => .error e
   | .ok w => if w.pathExists p then .ok w else .ok { w with nodes := w.nodes ++ [(p, .file)] }
 
+/-- a symbolic link `p` to the existing directory `target` READS as a copy of that directory's
+    subtree under the name `p` (glob, `exists`, sidecar reads all follow links).  Only used on trees
+    that are not written to afterwards (writes through one name would show under the other). -/
+def linkDirP (w : World) (target p : Str) : Except Err World :=
+  match mkdirP w (PurePath.parent p) with
+  | .error e => .error e
+  | .ok w =>
+    if w.pathExists p then .error .os else
+    let pre := target ++ ['/']
+    let under (q : Str) : Bool := q == target || Str.startsWith q pre
+    let moved (q : Str) : Str := p ++ q.drop target.length
+    .ok { w with
+      nodes := w.nodes ++ (w.nodes.filter (fun n => under n.1)).map (fun n => (moved n.1, n.2)),
+      sidecars := w.sidecars ++ (w.sidecars.filter (fun s => Str.startsWith s.1 pre)).map
+        (fun s => (moved s.1, s.2)) }
+
 /-- `fnmatch` of one path component against a pattern component containing only `*` wildcards -/
 def compMatch (pat name : Str) : Bool :=
   match Find.glob2re pat with
